@@ -18,13 +18,13 @@ def plan(tier):
     for L in (0, 1):
         for npre in range(0, 3 if tier == 'quick' else 4):
             for pre in histories(2, npre, npre):
-                for a in (0, 1):
+                for a in (0, 1, 2):
                     for b in (0, 1, 2):
                         for k in (0, 1, 2):
                             cvec.append([L, npre] + pre + [a, b, k])
     units = [dict(engine='e1', name='h_lq_conc', tu='C10.cpp', entry='h_lq_conc', unwind=14, vectors=cvec,
                   concrete=[([0, 1, 0, 0, 1, 1], list(range(1, 11))), ([1, 2, 0, 0, 0, 0, 2], list(range(1, 11))), ([0, 0, 1, 0, 0], list(range(1, 11)))],
-                  space='limit 1..2 x sequential prefix of <= %d {push, pop} x operation A in {push, pop} with operation B in {push, pop, unblock_push} of another thread injected in front of '
+                  space='limit 1..2 x sequential prefix of <= %d {push, pop} x operation A in {push, pop, unblock_push} with operation B in {push, pop, unblock_push} of another thread injected in front of '
                         "A's k-th mutex acquisition (k = 1..3; beyond A's last acquisition = after A), then draining" % (2 if tier == 'quick' else 3),
                   data='all pushed values symbolic and pairwise distinct',
                   bounds='two concurrent operations, interleaved at lock-region granularity (sound for accesses made under the lock: C03 lock discipline)',
